@@ -1,19 +1,24 @@
 (* C11 — gaussian profile delivers the configured volume per window and
-   peaks on time. Only property theorems; proofs in Proofs/GaussianProofs.v and
-   Proofs/GaussianReal.v.
+   peaks on time. Only property theorems; proofs in Proofs/GaussianProofs.v,
+   Proofs/GaussianReal.v, Proofs/GaussianRiemann.v and Proofs/GaussianF64.v.
 
-   Three layers. Exact layer (proved, all inputs): the remainder carry over
-   exact rational rates a_k/D. Analysis layer (proved over the reals): the
-   density is unimodal. Float layer (binary64 transcription g_for/gauss_run
-   with exp/erfc values as oracles): compared bit-for-bit with the code;
-   that it stays within n*2^-52*max(r) of the exact layer, and that the
-   Riemann sum of the density equals the window's probability mass up to the
-   discretisation error, are NOT proved (C11_*_partial where they would be
-   needed): the harness measures both on every generated parameter set
-   (predicate gauss_ok with a tolerance of one tick's worth of density at each
-   window edge). *)
-From F1 Require Import Base.Prelude Base.F64 Model.Gaussian Proofs.GaussianProofs Proofs.GaussianReal.
-From Coq Require Import Reals.
+   Four layers.
+   Exact layer (proved, all inputs): the remainder carry over exact rational rates a_k/D.
+   Analysis layer (proved over the reals, all parameters): the density is unimodal; the left
+   Riemann sum the calculator forms differs from the window's probability mass by at most one
+   slot of peak density (C11_discretisation); with real arithmetic the emitted total of a window is
+   within that discretisation error, and less than one carried request, of the volume (C11_volume).
+   Float layer (binary64 transcription g_for/gauss_run, compared bit-for-bit with the code): the
+   carry loses nothing but the rounding of one addition per tick - floor and subtraction are exact
+   (C11_float_carry); composed with the analysis layer in C11_volume_f64.
+   Oracles: math.Exp / math.Erfc. That the density and CDF values f1 computes with them are within
+   eps of the real ones is a hypothesis of C11_volume_f64 (eps is Go's libm accuracy, not
+   verified); the harness measures the end-to-end volume on every generated parameter set
+   (predicate gauss_ok). *)
+From F1 Require Import Base.Prelude Base.F64 Model.Gaussian Proofs.GaussianProofs Proofs.GaussianReal Proofs.F64Close Proofs.JitterF64 Proofs.GaussianRiemann Proofs.GaussianF64.
+From Coq Require Import Reals Lra.
+From Coquelicot Require Import Hierarchy RInt.
+From Flocq Require Import Core.Raux IEEE754.BinarySingleNaN.
 Close Scope R_scope.
 Open Scope Z_scope.
 
@@ -72,3 +77,69 @@ Example C11_example :
   carry_run 10 0 [3; 4; 25; 9; 9] = ([0; 0; 3; 1; 1], 0) /\
   weight_index (3 * 86400 + 5) 86400 7 = 3.
 Proof. vm_compute. split; reflexivity. Qed.
+
+(* ---------------------------------------------------------------- discretisation error *)
+
+(* The sum of (slot width * density at the slot's left end) over the n slots of a window differs
+   from the probability mass of the window by at most one slot's worth of the peak density,
+   wherever the peak lies, for every start, slot width and slot count. *)
+Theorem C11_discretisation : forall mu sigma a h n,
+  (0 < sigma)%R -> (0 <= h)%R ->
+  (Rabs (RInt (pdf_R mu sigma) a (a + INR n * h) - lsum (pdf_R mu sigma) a h n) <= h * pdf_R mu sigma mu)%R.
+Proof. exact gaussian_riemann. Qed.
+Print Assumptions C11_discretisation.
+
+(* With real arithmetic: the rates volume * (h * density) / mass, carried by the remainder loop
+   from remainder 0, emit over one window a total within the discretisation error
+   V * h * peak / mass above, and that plus less than one (still carried) request below, of the
+   volume V (V is the configured volume times weight / mean weight when weights are given). No
+   output is negative. *)
+Theorem C11_volume : forall mu sigma a h V n os f,
+  (0 < sigma)%R -> (0 <= h)%R -> (0 <= V)%R ->
+  let mass := RInt (pdf_R mu sigma) a (a + INR n * h) in
+  (0 < mass)%R ->
+  rcarry 0%R (real_rates mu sigma a h V mass n) = (os, f) ->
+  let disc := (V * (h * pdf_R mu sigma mu / mass))%R in
+  (V - disc - 1 < IZR (zsum os) <= V + disc)%R /\ Forall (fun o => 0 <= o) os.
+Proof. exact gaussian_volume. Qed.
+Print Assumptions C11_volume.
+
+(* ---------------------------------------------------------------- float carry *)
+
+(* Calculator.For ends in fstep (for whatever rate it computed) ... *)
+Theorem C11_for_is_fstep : forall c table rem now r o,
+  g_for c table rem now = Some (r, o) -> exists x, (r, o) = fstep x rem.
+Proof. exact g_for_fstep. Qed.
+Print Assumptions C11_for_is_fstep.
+
+(* ... and a run of fstep over finite rates in [0, 2^52] keeps the remainder in [0,1), emits no
+   negative value, and loses nothing but the rounding of the additions:
+   | sum out + final remainder - (sum rates + starting remainder) | <= sum (2^-53 (rate+1) + 2^-1075). *)
+Theorem C11_float_carry : forall xs rem os f,
+  Forall rate_ok xs -> is_finite rem = true -> (0 <= B2R rem < 1)%R ->
+  frun rem xs = (os, f) ->
+  is_finite f = true /\ (0 <= B2R f < 1)%R /\ Forall (fun o => 0 <= o) os /\ length os = length xs /\
+  (Rabs (IZR (zsum os) + B2R f - (fsumR xs + B2R rem)) <= errb xs)%R.
+Proof. exact frun_sum. Qed.
+Print Assumptions C11_float_carry.
+
+(* Composition: if the float rates are within a relative eps of the real rates of the window
+   (the accuracy of math.Exp / math.Erfc and of the four multiplications and divisions around
+   them), the total the binary64 loop emits is within
+   1 + float carry error + eps * (sum of real rates) + discretisation error of the volume. *)
+Theorem C11_volume_f64 : forall mu sigma a h V n xs os f eps,
+  (0 < sigma)%R -> (0 <= h)%R -> (0 <= V)%R -> (0 <= eps)%R ->
+  let mass := RInt (pdf_R mu sigma) a (a + INR n * h) in
+  (0 < mass)%R ->
+  Forall rate_ok xs ->
+  Forall2 (fun x r => Rabs (B2R x - r) <= eps * r)%R xs (real_rates mu sigma a h V mass n) ->
+  frun f_zero xs = (os, f) ->
+  let disc := (V * (h * pdf_R mu sigma mu / mass))%R in
+  (Rabs (IZR (zsum os) - V) <= 1 + errb xs + eps * (V + disc) + disc)%R.
+Proof. exact gaussian_volume_f64. Qed.
+Print Assumptions C11_volume_f64.
+
+(* Non-vacuity: the float loop on the rates 0.3, 0.4, 2.5 emits 0, 0, 3 and carries on. *)
+Example C11_float_carry_example :
+  fst (frun f_zero (map f_of_bits [4599075939470750515; 4600877379321698714; 4612811918334230528])) = [0; 0; 3].
+Proof. vm_compute. reflexivity. Qed.
